@@ -329,6 +329,17 @@ theorem connFuel_ge (c : Conn) : 100000 ≤ connFuel c := by unfold connFuel; om
 theorem Halts.pollT {N : Nat} {c c' : Conn} {r : PRes} (h : Halts N c c' r) (hF : N ≤ 100000) :
     pollConn (connFuel c) c = (c', r) := h.poll (Nat.le_trans hF (connFuel_ge c))
 
+/-- `connFuel` covers every bound of the form `6·|input| + 26` (the per-poll bounds of the stage lemmas):
+no size hypothesis on the input is needed. -/
+theorem connFuel_bound (c : Conn) : 6 * c.env.tr.input.length + 26 ≤ connFuel c := by
+  unfold connFuel; omega
+
+/-- a poll that halts within `6·|input| + 26` transitions is what `runTask`'s `pollConn` call returns,
+whatever the size of the input -/
+theorem Halts.pollB {N : Nat} {c c' : Conn} {r : PRes} (h : Halts N c c' r)
+    (hF : N ≤ 6 * c.env.tr.input.length + 26) : pollConn (connFuel c) c = (c', r) :=
+  h.poll (Nat.le_trans hF (connFuel_bound c))
+
 theorem Halts.of_steps {k N : Nat} {c c1 c' : Conn} {r : PRes} (hs : Steps k c c1)
     (h : Halts N c1 c' r) : Halts (k + N) c c' r := by
   obtain ⟨n, c2, hn, hs2, hh⟩ := h
